@@ -213,6 +213,18 @@ func checkTrunc(c truncCase) *vlib.Failure {
 	dst := src
 	if !c.SameDst {
 		dst = usedDst(c.S, c.DstUsed)
+		if c.DstUsed == 3 {
+			// a different object that starts out as a struct copy of the source (the way to carry
+			// the annotation over): its letter slice is the source's until Truncate gives it its own
+			switch x := src.(type) {
+			case *linear.Seq:
+				d := *x
+				dst = &d
+			case *linear.QSeq:
+				d := *x
+				dst = &d
+			}
+		}
 	}
 	off, end := c.S.Offset, c.S.end()
 	var want content
@@ -312,6 +324,9 @@ func truncClasses(c truncCase) []string {
 	if c.SameDst {
 		l = append(l, "dst=src")
 	}
+	if !c.SameDst && c.DstUsed == 3 && inside && c.End-c.Start >= 1 && c.Start > off {
+		l = append(l, "dst-starts-as-a-struct-copy-of-src")
+	}
 	if len(c.S.L) >= 4 && (c.S.Offset != 0 || c.S.Circular) {
 		l = append(l, vlib.NT)
 	}
@@ -335,12 +350,12 @@ func TestTruncate(t *testing.T) {
 				c.Start = rapid.IntRange(c.End, end).Draw(t, "start-in")
 			}
 			if !c.SameDst {
-				c.DstUsed = rapid.IntRange(0, 2).Draw(t, "dst-used")
+				c.DstUsed = rapid.IntRange(0, 3).Draw(t, "dst-used")
 			}
 			return c
 		},
 		Check: checkTrunc, Classes: truncClasses,
-		MinFrac: map[string]float64{"outside": 0.08, "through-origin": 0.05, "plain": 0.2}})
+		MinFrac: map[string]float64{"outside": 0.08, "through-origin": 0.05, "plain": 0.2, "dst-starts-as-a-struct-copy-of-src": 0.015}})
 }
 
 func TestTruncateExhaustive(t *testing.T) {
